@@ -1,6 +1,7 @@
 import YaqsModel.Basic.Parse
 import YaqsModel.Basic.CRatT
 import YaqsModel.Model.Tomo
+import YaqsModel.Model.TomoComb
 /-!
 line protocol for the tomography model (complex numbers travel as two exact rationals `re im`)
 
@@ -12,6 +13,10 @@ line protocol for the tomography model (complex numbers travel as two exact rati
 * `reprep d m p | ψ (2·d complex, shape (2,d) C order)` → `prob` and the density matrix of the new state
 * `flatidx k o | a_0 … a_{k-1}`            → C-order flat index of `tensor[o, a_0, …]`
 * `weights k | p_0 p_1 …`                   → weight returned and number of re-preparations performed
+* `applychoi d | J (16 complex) | X ((2d)² complex, row-major, joint index s·d+c)` → `(A_J ⊗ id)(X)`, same layout
+* `comb k d | U_0 | … | U_{k-1} | X0 | J_0 | … | J_{k-1}` → the four output components of the exact comb
+  `Tr_env[U_{k-1}(A_{J_{k-1}}⊗id)( … U_0 (A_{J_0}⊗id)(X0) U_0ᴴ … )U_{k-1}ᴴ]` (`Model/TomoComb.lean`)
+* `krauschoi | A_1 (4 complex, row-major) | … | A_n` → the 4×4 Choi matrix `Σ_n vec(A_n) vec(A_n)ᴴ` (code convention)
 -/
 open Yaqs Yaqs.CRatT Yaqs.Tomo
 
@@ -100,6 +105,38 @@ def handle (line : String) : String :=
     | some k, some ps =>
       let r := expectedCalls k ps
       showRat r.1 ++ " " ++ toString r.2
+    | _, _ => "bad-op"
+  | [["applychoi", ds], jws, xws] =>
+    match ds.toNat?, parseC? jws, parseC? xws with
+    | some d, some j, some x =>
+      if d = 0 ∨ j.size ≠ 16 ∨ x.size ≠ (2 * d) * (2 * d) then "bad-op" else
+      let Y := applyChoiE d (toM4 j) (jointOfFlat d x)
+      let idx : List (Fin 2 × Fin d) := (List.finRange 2).flatMap (fun s => (List.finRange d).map (fun c => (s, c)))
+      joinWith " " (idx.flatMap (fun a => idx.map (fun b => showC (Y a b))))
+    | _, _, _ => "bad-op"
+  | ["krauschoi"] :: aws =>
+    match allOpt (fun ws => (parseC? ws).bind (fun a => if a.size = 4 then some a else none)) aws with
+    | some as =>
+      if as.isEmpty then "bad-op" else
+      let ms : List M2 := as.map (fun a => (fun i j => a.getD (2 * i.val + j.val) 0 : M2))
+      showMat (krausChoiE ms)
+    | none => "bad-op"
+  | ["comb", ks, ds] :: rest =>
+    match ks.toNat?, ds.toNat? with
+    | some k, some d =>
+      if d = 0 ∨ rest.length ≠ 2 * k + 1 then "bad-op" else
+      let sz := (2 * d) * (2 * d)
+      match allOpt (fun ws => (parseC? ws).bind (fun a => if a.size = sz then some a else none)) (rest.take (k + 1)),
+            allOpt (fun ws => (parseC? ws).bind (fun a => if a.size = 16 then some a else none)) (rest.drop (k + 1)) with
+      | some ux, some js =>
+        let us := ux.take k
+        match ux.drop k with
+        | [x0] =>
+          let segs : List (Tab × M4) := (us.zip js).map (fun p => (tabJ d (jointOfFlat d p.1), toM4 p.2))
+          let X0 := tabJ d (jointOfFlat d x0)
+          joinWith " " ((List.finRange 4).map (fun o => showC (physCombT d segs X0 o)))
+        | _ => "bad-op"
+      | _, _ => "bad-op"
     | _, _ => "bad-op"
   | _ => "bad-op"
 
